@@ -225,20 +225,13 @@ def gen_deck(rng, force=None):
     degenerate_low_dim = False
     if homogeneous:
         if rng.random() < 0.4:
-            if d < 3 and any(lo == hi for lo, hi in ranges) \
-                    and not force.get('keep_degenerate'):
-                ranges = [(lo, hi if hi > lo else lo + 1) for lo, hi in ranges]
             degenerate_low_dim = d < 3 and any(lo == hi for lo, hi in ranges)
             ranges = ranges + [(0, 0)] * (3 - d)
         array = [rng.choice([2, 3, 2, 3, OWN])]
     else:
-        if d < 3 and any(lo == hi for lo, hi in ranges):
-            # LatticeBounds.dims() counts the non-trivial ranges: such a deck is
-            # rejected (finding degenerate_range_rejected); keep a few
-            if rng.random() < 0.75 and not force.get('keep_degenerate'):
-                ranges = [(lo, hi if hi > lo else lo + 1) for lo, hi in ranges]
-            else:
-                degenerate_low_dim = True
+        # one-point ranges in the lattice's own dimensions are kept (accepted
+        # since /repo 9b5a8f0)
+        degenerate_low_dim = d < 3 and any(lo == hi for lo, hi in ranges)
         ranges = ranges + [(0, 0)] * (3 - d)
         n = 1
         for lo, hi in ranges:
@@ -363,8 +356,12 @@ def break_deck(rng, deck, meta):
     d = meta['d']
     faults = ['drop_surface', 'extra_pair', 'same_plane', 'range_in_padding',
               'too_many_ranges']
+    if d < 3:
+        faults += ['padding_nonzero', 'padding_nonzero']
     if d >= 2:
         faults += ['parallel_pairs', 'shifted_ranges']
+    if d >= 2:
+        faults += ['too_few_ranges', 'too_few_ranges']
     if meta['rpp']:
         faults = ['range_in_padding', 'too_many_ranges']
     fault = rng.choice(faults)
@@ -379,7 +376,8 @@ def break_deck(rng, deck, meta):
         lits = [lits[0], -lits[0]] + lits[2:]
     elif fault == 'parallel_pairs':
         lits = lits[:2] + lits[:2] + lits[4:]
-    elif fault in ('range_in_padding', 'shifted_ranges', 'too_many_ranges'):
+    elif fault in ('range_in_padding', 'shifted_ranges', 'too_many_ranges',
+                   'padding_nonzero', 'too_few_ranges'):
         if fill.get('homogeneous'):
             fill.pop('homogeneous')
             fill['array'] = fill['array'][:1]
@@ -387,6 +385,16 @@ def break_deck(rng, deck, meta):
         ranges = ranges + [(0, 0)] * (3 - len(ranges))
         if fault == 'range_in_padding':
             ranges[2 if d < 3 else 0] = (0, 1)
+        elif fault == 'padding_nonzero':
+            # one-point padding ranges that are not 0:0 (accepted by the code,
+            # the surplus index is ignored)
+            for k in range(d, 3):
+                v = rng.choice([-2, 1, 3])
+                ranges[k] = (v, v)
+        elif fault == 'too_few_ranges':
+            # fewer ranges than base vectors (only possible with --lattice)
+            ranges = ranges[:d - 1]
+            fill['homogeneous'] = True
         elif fault == 'shifted_ranges':
             # d non-trivial ranges, but not the first d
             ranges = [(0, 0)] + [(lo, max(hi, lo + 1)) for lo, hi in
